@@ -395,7 +395,7 @@ def select(elems, idx):
 
 
 def as_list(x, n=None):
-    if isinstance(x, SymArray):
+    if isinstance(x, SymArray) or hasattr(x, "e"):
         return list(x.e)
     if isinstance(x, (list, tuple, numpy.ndarray)):
         return list(x)
@@ -709,3 +709,163 @@ def _i_enumerate(args, kw):
 
 
 R.INTRINSICS[enumerate] = _i_enumerate
+
+
+# --------------------------------------------------------------------------------------
+# guarded list / set and a pandas.Series shim (used by the input-check harness, C20)
+# --------------------------------------------------------------------------------------
+class GList:
+    """list whose entries are present under guards: [(guard, value)] (result of a comprehension
+    with a symbolic filter).  Only its length / emptiness is observable."""
+    _symarray = True
+    __hash__ = None
+
+    def __init__(self, entries):
+        self.entries = entries
+
+    def _symlen(self):
+        return Sym(z3.Sum([z3.If(R.zbool(g), 1, 0) for g, _ in self.entries]) if self.entries else z3.IntVal(0), int)
+
+    def _copy(self):
+        return GList(list(self.entries))
+
+
+class SymSet:
+    """set(...) of symbolic elements: only membership is observable"""
+    _symarray = True
+    __hash__ = None
+
+    def __init__(self, elems):
+        self.elems = list(elems)
+
+    def __or__(self, other):
+        return SymSet(self.elems + list(other.elems if isinstance(other, SymSet) else other))
+
+    __ror__ = __or__
+
+    def __iter__(self):
+        return iter(self.elems)
+
+    def __contains__(self, x):
+        raise Unsupported("native membership test on a symbolic set")
+
+    def _copy(self):
+        return self
+
+
+class SymSeries:
+    """pandas.Series over a SymArray: the subset of the API the input checks use"""
+    _symarray = True
+    __hash__ = None
+
+    def __init__(self, arr, name=None):
+        self.a = arr if isinstance(arr, SymArray) else SymArray(list(arr))
+        self.name = name
+
+    e = property(lambda self: self.a.e)
+    dtype = property(lambda self: self.a.dtype)
+    values = property(lambda self: self.a)
+
+    def __len__(self):
+        return len(self.a.e)
+
+    def __iter__(self):
+        return iter(self.a.e)
+
+    def _copy(self):
+        return SymSeries(self.a._copy(), self.name)
+
+    def copy(self):
+        return self._copy()
+
+    def _merge(self, c, other):
+        return SymSeries(self.a._merge(c, other.a), self.name)
+
+    def _symlen(self):
+        return len(self.a.e)
+
+    @property
+    def is_unique(self):
+        es = self.a.e
+        pairs = [truth(R.compare(ast.NotEq(), es[i], es[j])) for i in range(len(es)) for j in range(i + 1, len(es))]
+        return Sym(R.zbool(R.zand(*pairs)), bool)
+
+    def duplicated(self):
+        es = self.a.e
+        return SymSeries(SymArray([Sym(R.zbool(R.zor(*[truth(R.compare(ast.Eq(), es[i], es[j])) for j in range(i)])), bool) for i in range(len(es))], bool))
+
+    def isin(self, values):
+        vs = list(values)
+        return SymSeries(SymArray([R.compare(ast.In(), x, vs) if (is_sym(x) or any(is_sym(v) for v in vs)) else (x in vs) for x in self.a.e], bool))
+
+    def _wrap(self, r):
+        return SymSeries(r) if isinstance(r, SymArray) else r
+
+    def __eq__(self, o): return self._wrap(self.a == (o.a if isinstance(o, SymSeries) else o))
+    def __ne__(self, o): return self._wrap(self.a != (o.a if isinstance(o, SymSeries) else o))
+    def __lt__(self, o): return self._wrap(self.a < (o.a if isinstance(o, SymSeries) else o))
+    def __le__(self, o): return self._wrap(self.a <= (o.a if isinstance(o, SymSeries) else o))
+    def __gt__(self, o): return self._wrap(self.a > (o.a if isinstance(o, SymSeries) else o))
+    def __ge__(self, o): return self._wrap(self.a >= (o.a if isinstance(o, SymSeries) else o))
+    def __invert__(self): return SymSeries(~self.a)
+    def __and__(self, o): return self._wrap(self.a & (o.a if isinstance(o, SymSeries) else o))
+    def __or__(self, o): return self._wrap(self.a | (o.a if isinstance(o, SymSeries) else o))
+
+    def any(self):
+        return self.a.any()
+
+    def all(self):
+        return self.a.all()
+
+    def astype(self, t):
+        return SymSeries(self.a.astype(t), self.name)
+
+    def unique(self):
+        return list(self.a.e)       # duplicates are irrelevant for the membership tests made on it
+
+    def groupby(self, by):
+        return _GroupBy(self, by)
+
+    def __getattr__(self, name):
+        if name.startswith("_"):
+            raise AttributeError(name)
+        raise Unsupported(f"pandas.Series attribute .{name} is not modelled")
+
+
+class _GroupBy:
+    def __init__(self, s, by):
+        self.s, self.by = s, by
+
+    def transform(self, how):
+        if how not in ("max", "min", "sum"):
+            raise Unsupported(f"groupby.transform({how})")
+        gid = self.by.a if isinstance(self.by, SymSeries) else self.by
+        tab = AggTable.__new__(AggTable)
+        tab.gid, tab.a, tab.func, tab.fill = gid, self.s.a, how, 0
+        out = []
+        for i in gid.e:
+            members = [truth(R.compare(ast.Eq(), g, i)) for g in gid.e]
+            out.append(tab._agg(members, list(self.s.a.e)))
+        return SymSeries(SymArray(out))
+
+
+def _i_set(args, kw):
+    if args and hasattr(args[0], "_symarray"):
+        return SymSet(list(args[0]))
+    return set(*args)
+
+
+R.INTRINSICS[set] = _i_set
+
+
+def _is_pandas_dtype_pred(f):
+    return ((getattr(f, "__module__", None) or "").startswith(("pandas.core.dtypes", "pandas.api.types"))
+            and (getattr(f, "__name__", None) or "").startswith("is_") and (getattr(f, "__name__", None) or "").endswith("_dtype"))
+
+
+def _call_dtype_pred(f, args, kw):
+    a = args[0]
+    return f(a.dtype if hasattr(a, "_symarray") else a)
+
+
+R.TYPE_INTRINSICS.append((_is_pandas_dtype_pred, _call_dtype_pred))
